@@ -8,7 +8,10 @@ From HD Require Import common.Base.
 Inductive ires := IOk (v : N) | IErr (e : N).
 Inductive tres := TInner (r : ires) | TTimeout | TNever.
 
-Record tcase := mkT { t_d : N; t_p0 : N; t_ti : option N; t_res : ires }.
+(* [t_hand]: the first poll (at p0) is made by one task and the future is then handed to ANOTHER task
+   (a different waker) which only polls when woken.  No definition below reads it: the deadline is met
+   whoever drives the future, because every unready poll re-registers the current waker with the timer. *)
+Record tcase := mkT { t_d : N; t_p0 : N; t_ti : option N; t_res : ires; t_hand : bool }.
 
 (* one poll at time t *)
 Definition poll_at (c : tcase) (t : N) : option tres :=
